@@ -247,7 +247,8 @@ def equal(exp, got, d: Diff | None = None, path="$", numeric_mode=False) -> Diff
         _QDataset = _QVector = ()
     if _QVector and isinstance(exp, _QVector):
         if type(got) is not type(exp):
-            d.add("class", path, f"{type(exp).__name__}->{type(got).__name__}")
+            d.add("class", path, f"{type(exp).__module__}.{type(exp).__qualname__}->"
+                                 f"{type(got).__module__}.{type(got).__qualname__}")
             return d
         try:
             if tuple(got.shape) != tuple(exp.shape) or list(got.fields) != list(exp.fields) or list(
@@ -273,7 +274,8 @@ def equal(exp, got, d: Diff | None = None, path="$", numeric_mode=False) -> Diff
         return d
     if _QDataset and isinstance(exp, _QDataset):
         if type(got) is not type(exp):
-            d.add("class", path, f"{type(exp).__name__}->{type(got).__name__}")
+            d.add("class", path, f"{type(exp).__module__}.{type(exp).__qualname__}->"
+                                 f"{type(got).__module__}.{type(got).__qualname__}")
             return d
         try:
             equal(exp.array, got.array, d, f"{path}.array")
@@ -293,7 +295,8 @@ def equal(exp, got, d: Diff | None = None, path="$", numeric_mode=False) -> Diff
     # ---- AutoSerialize + nn.Module hybrids: state_dict, behaviour and plain attributes
     if isinstance(exp, AutoSerialize) and isinstance(exp, torch.nn.Module):
         if type(got) is not type(exp):
-            d.add("class", path, f"{type(exp).__name__}->{type(got).__name__}")
+            d.add("class", path, f"{type(exp).__module__}.{type(exp).__qualname__}->"
+                                 f"{type(got).__module__}.{type(got).__qualname__}")
             return d
         try:
             sa, sb = exp.state_dict(), got.state_dict()
@@ -329,7 +332,8 @@ def equal(exp, got, d: Diff | None = None, path="$", numeric_mode=False) -> Diff
     # ---- AutoSerialize objects
     if isinstance(exp, AutoSerialize):
         if type(got) is not type(exp):
-            d.add("class", path, f"{type(exp).__name__}->{type(got).__name__}")
+            d.add("class", path, f"{type(exp).__module__}.{type(exp).__qualname__}->"
+                                 f"{type(got).__module__}.{type(got).__qualname__}")
             return d
         fields = getattr(type(exp), "__attrs_attrs__", None)
         if fields is not None:
@@ -743,6 +747,8 @@ def gen_obj(rng, opts, depth=0, budget=None, cls=None, nattrs=None):
         return gen_hybrid(rng, opts)
     cls = cls or rng.weighted([("Plain", 4), ("Node", 3), ("Leaf", 2), ("Other", 1),
                                ("AttrsLike", 1), ("Inner", 1)])
+    if cls in ("Plain", "Node", "Inner") and rng.fork(("twin", depth, budget[0])).chance(0.2):
+        cls += "@2"     # the class of the same name from the second module
     if cls == "AttrsLike":
         names = ["fa", "fb", "fc"]
     else:
